@@ -358,6 +358,9 @@ func cmdCheck(o options, prop string) int {
 				// sweep: safety classes only
 				switch ob.Class {
 				case "panic", "vacuity", "guarded-by", "pre", "atomic", "repinv", "assert":
+				case "inv-entry", "inv-keep", "iter", "loop-exit":
+					// loop contracts of an assumed function serve its statement-anchored assertions: they are about the
+					// body and are checked with them
 				default:
 					continue
 				}
